@@ -377,7 +377,23 @@ func runReuseCase(c *Case, env *Env) *Result {
 						if b < len(all) {
 							end = append([]byte(nil), all[b].Term...)
 						}
-						if a != b || end == nil {
+						if op.Doc%6 == 5 {
+							// a valid range that holds no term at all: just behind term a
+							start = append(start, 0)
+							end = append(append([]byte(nil), start...), 0)
+							empty := true
+							for _, to := range all {
+								if bytes.Compare(to.Term, start) >= 0 && bytes.Compare(to.Term, end) < 0 {
+									empty = false
+								}
+							}
+							if empty {
+								odi.all = nil
+								odi.desc = fmt.Sprintf(" over the key range [%q,%q), which holds no term", string(start), string(end))
+								odi.it = dict.Iterator(nil, start, end)
+								res.probe("dictionary-enumeration-over-an-empty-key-range")
+							}
+						} else if a != b || end == nil {
 							odi.all = all[a:b]
 							if end == nil {
 								odi.all = all[a:]
